@@ -166,6 +166,18 @@ class LinkHistory:
         exc = self.attempt(lambda: setattr(self.live[obj], attr, self.live[new]))
         return self.emit("SetLink", {"obj": obj, "attr": attr, "new": new}, exc)
 
+    def group_set(self, changes):
+        """changes: [("link", obj, attr, new name) | ("list", obj, attr, [names])] applied by ONE ModelingUpdate"""
+        def go():
+            pairs = []
+            for kind, obj, attr, new in changes:
+                old = getattr(self.live[obj], attr)
+                pairs.append([old, self.live[new] if kind == "link" else [self.live[x] for x in new]])
+            self.ns.ModelingUpdate(pairs)
+        exc = self.attempt(go)
+        return self.emit("GroupSet", {"changes": [{"kind": k, "obj": o, "attr": a, "news": n if k == "link" else "",
+                                                   "newl": list(n) if k == "list" else []} for k, o, a, n in changes]}, exc)
+
     def self_delete(self, obj):
         exc = self.attempt(lambda: self.live[obj].self_delete())
         if exc == "none":
@@ -262,7 +274,32 @@ def random_histories(ns, out, tid0, seeds, n_ops):
             for n, o in live.items():
                 if not n.endswith("_B"):
                     by_cls.setdefault(type(o).__name__, []).append(n)
-            kind = rng.choice(["listop"] * 6 + ["setlist", "setlink", "setlink", "delete", "delete_unref"])
+            kind = rng.choice(["listop"] * 6 + ["setlist", "setlink", "setlink", "group", "group", "delete", "delete_unref"])
+            if kind == "group":
+                # several objects re-pointed to the SAME target by one update, possibly with a list change
+                choice = rng.choice(["job.server", "up.network", "up.usage_journey", "up.country"])
+                cls, attr = {"job.server": ("Job", "server"), "up.usage_journey": ("UsagePattern", "usage_journey"),
+                             "up.network": ("UsagePattern", "network"), "up.country": ("UsagePattern", "country")}[choice]
+                tcls = {"server": "Server", "usage_journey": "UsageJourney", "network": "Network", "country": "Country"}[attr]
+                srcs = sorted(by_cls.get(cls, []))
+                if len(srcs) < 2 or not by_cls.get(tcls):
+                    continue
+                target = rng.choice(sorted(by_cls[tcls]))
+                movers = [o for o in rng.sample(srcs, min(len(srcs), rng.choice([2, 3]))) if getattr(live[o], attr).name != target]
+                if len(movers) < 2:
+                    continue
+                changes = [("link", o, attr, target) for o in movers]
+                if rng.random() < 0.4 and by_cls.get("UsageJourneyStep") and by_cls.get("Job"):
+                    st = rng.choice(sorted(by_cls["UsageJourneyStep"]))
+                    new = [rng.choice(sorted(by_cls["Job"])) for _ in range(rng.choice([1, 2]))]
+                    if new != [x.name for x in live[st].jobs]:
+                        changes.insert(rng.randint(0, len(changes)), ("list", st, "jobs", new))
+                h.group_set(changes)
+                kinds_seen["GroupSet"] = kinds_seen.get("GroupSet", 0) + 1
+                last = h.events[-1]
+                if last["exc"] != "none":
+                    break
+                continue
             if kind in ("listop", "setlist"):
                 cls = rng.choice(["UsageJourney", "UsageJourneyStep", "UsagePattern"])
                 if not by_cls.get(cls):
@@ -371,7 +408,7 @@ def run(tier, out):
         events += ev2
         trace = os.path.join(wd, "c16.ndjson")
         tracecheck.write_trace(trace, events, keys=("tid", "seq", "ev", "exc", "T2", "rev", "attached_ok", "detached",
-                                                      "obj", "attr", "op", "new", "what", "two_systems"))
+                                                      "obj", "attr", "op", "new", "changes", "what", "two_systems"))
         fails, _notes, res2 = tracecheck.validate(wd, "Trace_Links", trace, {})
         out.add_tlc(res2, "Trace_Links on recorded link edits")
         out.traces += tid
